@@ -808,3 +808,19 @@ def g_getitem_int(rng, level=0, n_random=120):
         N = int(rng.integers(1, 4))
         L = int(rng.integers(1, 5))
         yield {'self': pa.PauliList(bits(rng, L, 2 * N), rng.integers(0, 4, L).astype(np.int64)), 'item': int(rng.integers(0, L))}
+
+
+@gen(ST + 'StabilizerState.measure#state')
+def g_smeasure_state(rng, level=0, n_random=120):
+    for _ in range(n_random):
+        N = int(rng.integers(1, 4))
+        yield {'self': _rand_state(rng, N), 'obs': _rand_state(rng, N)}
+
+
+@gen(ST + 'StabilizerState.get_prob')
+def g_getprob(rng, level=0, n_random=120):
+    for _ in range(n_random):
+        N = int(rng.integers(1, 4))
+        st = _rand_state(rng, N)
+        st.r = 0
+        yield {'self': st, 'readout': bits(rng, N)}
